@@ -604,6 +604,12 @@ def courts_and_strings(payload):
                 for string in [ename] + [v for v, target in src["variations"].items() if target == ename]:
                     reporters.append({"string": string, "edition": ename, "plain": plain, "cite_type": src["cite_type"],
                                       "minimal": admits_minimal(tpls, string)})
-    laws = [{"key": k, "examples": list(s.get("examples") or [])} for k, cl in LAWS.items() for s in cl]
-    journals = [{"key": k, "plain": not s.get("regexes"), "variations": list(s.get("variations") or [])} for k, cl in JOURNALS.items() for s in cl]
+    laws = [{"key": k, "examples": list(s.get("examples") or []), "variations": list(s.get("variations") or [])}
+            for k, cl in LAWS.items() for s in cl]
+    journals = []
+    for k, cl in JOURNALS.items():
+        for src in cl:
+            tpls = src.get("regexes") or ["$full_cite"]
+            for string in [k] + list(src.get("variations") or []):
+                journals.append({"string": string, "key": k, "minimal": admits_minimal(tpls, string)})
     return {"courts": list(cs.values()), "reporters": reporters, "laws": laws, "journals": journals}
